@@ -9,8 +9,10 @@ n = len(rows)
 txt = ("### 0.6 Seeded changes (sub-agents, one property text and a scratch worktree each) and which checks report them\n\n"
        "Each change compiles, keeps the 39 baseline tests passing, and makes its own demonstration fail; confirmed in a scratch worktree by "
        "`tools/seedconfirm.py`, stored in `/verif/seeded/<id>/` (patch.diff, demo.py, meta.json with the check results), then applied to /repo, "
-       "checked with the quick tier at seed 1, and reverted.  Two rounds (the second round's agents were told what had been tried and asked for other "
-       f"mechanisms): {n} changes, all reported by the final checks.  Misses of earlier versions of the checks, and what they led to: "
+       "checked with the quick tier at seed 1, and reverted (the third round ran the same checks from rsync copies of /verif against scratch worktrees, "
+       "`SEED_REPO`/`SEED_VERIF`, so that /repo stayed free; every change was finally re-run with `tools/seedrecheck.py`).  Three rounds (from the second on the agents were told what had "
+       f"been tried and asked for other mechanisms; the third asked for two changes per property that need something specific to manifest): {n} changes, all reported by the final "
+       "checks.  Misses of earlier versions of the checks, and what they led to: "
        "C06-2 (the failing magic is now found by a checker that still loads when the table lemma breaks; stale .vo files are removed), "
        "C10-2 (FLAG_REF members of sets and slot-order streams; a shared-frozenset source for C01), C07-1 (line-gap source, all generated sources in the quick tier), "
        "C18-1 (class-level mutable attributes are roots of the scanner; interned-string streams in the histories), C20-2 (first_line=0); second round: "
@@ -18,7 +20,18 @@ txt = ("### 0.6 Seeded changes (sub-agents, one property text and a scratch work
        "C12-3 (jump targets are recomputed without Bytecode's own glue - label finder plus handler targets - and the ExceptionTable section of the expected stream comes from the "
        "code object's table, not from Bytecode), C12-4 (a Python 2 syntax source: three-argument raise, print >>, exec, backticks), C13-3 (a source with positional-only and "
        "keyword-only parameters), C16-3 (replace() with zero / empty values), C17-3 (the 'ExceptionTable:' section is modelled and compared: C17_exception_section), "
-       "C01-3 (64-bit int constants in the Python 2 source).  C12-1 is a label-finder change: it is reported by C04; C12 takes jump targets from that same label finder.  "
+       "C01-3 (64-bit int constants in the Python 2 source); third round (17 of 40 were missed by the check of their own property at first): C01-6 and C10-6 (a container reader "
+       "dropping bytes_for_s: C10 now runs a deterministic matrix - every container code around every leaf code, small and with more than 255 items - and C01 compiles a source with "
+       "byte strings inside a 260-item tuple, nested tuples and compiler-built frozensets; the random streams are now mostly tuples of several values instead of lone leaves), "
+       "C02-5 (opname[n] must be spelled as CPython spells it: C09 obligation; C02 checks Instruction.opname against the table), C07-3 (fast path keyed on major.minor: C07 pins, for "
+       "every corpus directory of a host's version, the smallest file of each distinct magic - 3.8 pre-releases, PyPy 3.8 - and its runner no longer depends silently on "
+       "xdis.load.PYTHON_MAGIC_INT), C17-5 (exception table parsed only on 3.11+ HOSTS: C17 runs Bytecode.exception_entries on the 3.8 and 3.13 hosts too), C20-3 (line table "
+       "memoised per code-object value: two functions with equal code objects and different line tables in the C20 objects), and the memoisation family C02-6, C03-6, C04-5, C06-6, "
+       "C07-4, C08-5, C18-3, C18-4, C20-3 (a cache keyed too coarsely, or handing out a list that is later extended in place): history dependence is C18's property - its scanner now "
+       "treats every use of functools.lru_cache / cache / cached_property as a mutation site of its own and follows local aliases of module-level objects, and its histories gained "
+       "finer operations (the std functions per code object, co_lines() twice, whole-table stack effects, sysinfo2magic, pretty_flags) and operations related to the probe, so that "
+       "concrete failing histories are found for C02-6, C04-5, C15-5, C18-4.  C03-5, C12-5, C12-6 are decoder changes reported by the decoder's own property (C01/C07, C02/C04, C03).  "
+       "C13-5 was rebased onto the three C13 fixes.  C12-1 is a label-finder change: it is reported by C04; C12 takes jump targets from that same label finder.  "
        "'(no-failing-input-found)' marks reports where the broken obligation is named but no concrete input was searched out.\n\n"
        "| id | change | reported by |\n|---|---|---|\n" + "\n".join(rows) + "\n\n")
 p = '/verif/DESIGN.md'
